@@ -1,0 +1,50 @@
+//go:build verif
+
+package cache
+
+// Contracts checked by /verif (contract-based deductive verification).
+// This file is comment-only; it is compiled only with -tags=verif.
+//
+// C57 (expiring cache). removeInternal (caller holds c.mu) takes the entry out
+// of the map and, when the timer could not be stopped any more (Stop returned
+// false: the expiry function is already waiting for the mutex), marks it
+// deleted. The expiry function (Add$1) runs the callback only for an entry not
+// marked deleted, and removes the key itself in that case. Hence the callback
+// of a removed entry never runs, and Remove hands the entry to exactly the
+// caller that found it in the map.
+
+//@ func (*TimeoutCache).removeInternal
+//@   prop C57
+//@   requires c != nil && c.cache != nil
+//@   requires implies(haskey(c.cache, key), c.cache[key] != nil && c.cache[key].timer != nil)
+//@   ensures result1 == old(haskey(c.cache, key))
+//@   ensures implies(result1, result0 == old(c.cache[key]) && !haskey(c.cache, key))
+//@   ensures implies(!result1, result0 == nil && !haskey(c.cache, key))
+//@   ensures implies(result1 && lastret("Stop") == 0, result0.deleted)
+//@   ensures implies(result1 && lastret("Stop") != 0, result0.deleted == old(c.cache[key].deleted))
+
+//@ func (*TimeoutCache).Remove
+//@   prop C57
+//@   opt atomic mu
+//@   requires c != nil && c.cache != nil
+//@   requires implies(haskey(c.cache, key), c.cache[key] != nil && c.cache[key].timer != nil)
+//@   assert at call removeInternal#1 arg0 == c && arg1 == key
+//@   ensures ok == old(haskey(c.cache, key))
+//@   ensures implies(ok, item == old(c.cache[key].item) && !haskey(c.cache, key))
+//@   ensures implies(!ok, item == nil)
+
+//@ func (*TimeoutCache).Add$1
+//@   prop C57
+//@   opt atomic mu
+//@   assert at call callback#1 ncalls("delete") == 1
+//@   assert at call delete#1 !entry.deleted && arg1 == key
+//@   assert at return 1 entry.deleted && ncalls("callback") == 0 && ncalls("delete") == 0
+
+//@ func (*TimeoutCache).Add
+//@   prop C57
+//@   opt atomic mu
+//@   requires c != nil && c.cache != nil
+//@   requires implies(haskey(c.cache, key), c.cache[key] != nil)
+//@   ensures result1 == !old(haskey(c.cache, key))
+//@   ensures implies(!result1, result0 == old(c.cache[key].item) && c.cache[key] == old(c.cache[key]))
+//@   ensures implies(result1, result0 == item && haskey(c.cache, key) && c.cache[key] != nil && fresh(c.cache[key]) && c.cache[key].item == item && !c.cache[key].deleted)
